@@ -682,6 +682,13 @@ func (fr *Frame) execValue(x ssa.Value, st *State) {
 			seenC := "Seen_" + san(fr.prefix+"_"+v.Name())
 			e.set(st, seenC, "(Array "+ks+" Bool)", "((as const (Array "+ks+" Bool)) false)")
 			fr.seenComp[v] = seenC
+			// number of keys visited so far, and the domain of the map when the iteration started
+			e.set(st, "SeenN_"+san(fr.prefix+"_"+v.Name()), "Int", "0")
+			dom, _, _, _, _ := e.mapComps(m)
+			if fr.rangeDom == nil {
+				fr.rangeDom = map[*ssa.Range]string{}
+			}
+			fr.rangeDom[v] = sSel(e.get(st, dom, "(Array Int (Array "+ks+" Bool))"), src.T)
 		}
 	case *ssa.Next:
 		fr.nextInstr(v, st)
@@ -1077,6 +1084,17 @@ func (fr *Frame) nextInstr(v *ssa.Next, st *State) {
 	e.assume(st.pc, sImp(sNot(ok), fmt.Sprintf("(forall ((%s %s)) (! (=> (and (not (= %s 0)) (select %s %s)) (select %s %s)) :pattern ((select %s %s))))", qk, ks, mv.T, domT, qk, seen, qk, domT, qk)))
 	e.set(st, seenC, seenS, sIte(ok, sStore(seen, k, "true"), seen))
 	fr.seenComp[rng] = seenC
+	// a further key exists only while fewer keys have been visited than the map holds (as long as the loop has
+	// not changed the key set of the map)
+	cntC := "SeenN_" + san(fr.prefix+"_"+rng.Name())
+	cnt := e.get(st, cntC, "Int")
+	_, _, cntComp, _, _ := e.mapComps(m)
+	if d0, okd := fr.rangeDom[rng]; okd {
+		size := sSel(e.get(st, cntComp, "(Array Int Int)"), mv.T)
+		e.assume(st.pc, sImp(sAnd(ok, sEq(domT, d0)), "(< "+cnt+" "+size+")"))
+	}
+	e.assume(st.pc, "(>= "+cnt+" 0)")
+	e.set(st, cntC, "Int", sIte(ok, "(+ "+cnt+" 1)", cnt))
 	fr.vals[v] = &Val{S: "Tuple", GoT: v.Type(), Tup: []*Val{{T: ok, S: "Bool"}, {T: k, S: ks, GoT: m.Key()}, {T: vv, S: vs, GoT: m.Elem()}}}
 }
 
@@ -1438,7 +1456,7 @@ func (fr *Frame) frameCond(comp string, v string) (string, bool) {
 	if !fr.isTop || fr.spec == nil {
 		return "", false
 	}
-	if strings.HasPrefix(comp, "Seen_") || strings.HasPrefix(comp, "C_") || strings.HasPrefix(comp, "Bx_") || comp == "$next" {
+	if strings.HasPrefix(comp, "Seen") || strings.HasPrefix(comp, "C_") || strings.HasPrefix(comp, "Bx_") || comp == "$next" {
 		return "", false
 	}
 	if strings.HasPrefix(comp, "GG_") && fr.e.g.specs.Frameless[comp[3:]] {
